@@ -288,8 +288,111 @@ def r20(body):
     return body, count
 
 
+def _match_brace(body, i):
+    depth, j, in_str = 0, i, False
+    while j < len(body):
+        ch = body[j]
+        if in_str:
+            if ch == '\\':
+                j += 1
+            elif ch == '"':
+                in_str = False
+        elif ch == '"':
+            in_str = True
+        elif ch in "([{":
+            depth += 1
+        elif ch in ")]}":
+            depth -= 1
+            if depth == 0:
+                return j
+        j += 1
+    return -1
+
+
+@rule("R21", "match S { [] => A, [a] => B, [a, b] if G => C, .., _ => D } on a slice -> if-chain on S.len() with `let a = &S[0]; ..` bindings   [the language reference's meaning of slice patterns; Verus does not support them]")
+def r21(body):
+    m = re.search(r"\bmatch\s+(\w+)\s*\{\s*\[", body)
+    if not m:
+        return body, 0
+    scrut = m.group(1)
+    o = body.index("{", m.start())
+    c = _match_brace(body, o)
+    inner = body[o + 1:c]
+    # split arms
+    arms, i = [], 0
+    while i < len(inner):
+        while i < len(inner) and inner[i] in " \t\r\n,":
+            i += 1
+        if i >= len(inner):
+            break
+        j = inner.index("=>", i)
+        head = inner[i:j].strip()
+        k = j + 2
+        while inner[k] in " \t\r\n":
+            k += 1
+        if inner[k] == "{":
+            e = _match_brace(inner, k)
+            arm_body = inner[k:e + 1]
+            i = e + 1
+        else:
+            # expression arm up to the next top-level comma
+            depth, e = 0, k
+            while e < len(inner) and not (inner[e] == "," and depth == 0):
+                if inner[e] in "([{":
+                    depth += 1
+                elif inner[e] in ")]}":
+                    depth -= 1
+                e += 1
+            arm_body = "{ " + inner[k:e].strip() + " }"
+            i = e
+        arms.append((head, arm_body))
+    out = []
+    for idx, (head, arm_body) in enumerate(arms):
+        gm = re.match(r"^(\[[^\]]*\]|_)\s*(?:if\s+(.*))?$", head, re.S)
+        if not gm:
+            return body, 0
+        pat, guard = gm.group(1), gm.group(2)
+        kw = "if" if idx == 0 else "else if"
+        if pat == "_":
+            out.append("else " + arm_body if idx else arm_body)
+            continue
+        names = [x.strip() for x in pat[1:-1].split(",") if x.strip()]
+        binds = " ".join("let %s = &%s[%d];" % (n, scrut, q) for q, n in enumerate(names))
+        cond = "%s.len() == %d" % (scrut, len(names))
+        if guard:
+            cond += " && { %s %s }" % (binds, " ".join(guard.split()))
+        blk = "{ " + binds + " " + arm_body + " }" if names else arm_body
+        out.append("%s %s %s" % (kw, cond, blk))
+    new = " ".join(out)
+    return body[:m.start()] + _pad(body[m.start():c + 1], new) + body[c + 1:], 1
+
+
+@rule("R22", "X.starts_with(Y) on str -> vx_str_starts_with(X, Y)   [trusted std contract: generic Pattern API]")
+def r22(body):
+    return _sub(r"\b(\w+)\s*\.\s*starts_with\(\s*(\w+)\s*\)", lambda m: "vx_str_starts_with(%s, %s)" % (m.group(1), m.group(2)), body)
+
+
+@rule("R9b", "for P in ITER { BODY } (ITER a local iterator value) -> { let mut vx_itr = ITER; loop { match vx_itr.next() { Some(P) => { BODY } None => break, } } }   [definition of `for`]")
+def r9b(body):
+    count = 0
+    pos = 0
+    while True:
+        m = re.compile(r"\bfor\s+(\w+)\s+in\s+(\w+)\s*\{").search(body, pos)
+        if not m:
+            break
+        j = _match_brace(body, m.end() - 1)
+        name = "vx_itr%d" % count if count else "vx_itr"
+        head = "{ let mut %s = %s; loop { match %s.next() { Some(%s) => {" % (name, m.group(2), name, m.group(1))
+        head = _pad(m.group(0), head)
+        tail = "} None => break, } } }"
+        body = body[:m.start()] + head + body[m.end():j] + tail + body[j + 1:]
+        pos = m.start() + len(head)
+        count += 1
+    return body, count
+
+
 # rules that are purely syntactic proof devices are applied only when a unit asks for them
-OPT_IN = {"R9", "R15", "R17"}
+OPT_IN = {"R9", "R9b", "R15", "R17", "R21", "R22"}
 
 
 @rule("R3b", "assert!(E, \"msg\") -> proved assertion on the executable operand   [strengthening: the runtime check must never fire]")
